@@ -241,6 +241,16 @@ func init() {
 							L = lo + rng.Intn(hi-lo+1)
 						}
 						s := vpMkSession(id, L, rng)
+						if vpS(st.Args, "content") == "rep" {
+							// long runs and exact repetitions: kilobytes that compress to almost nothing
+							s.AccessToken = strings.Repeat("A", 6000+id)
+							s.IDToken = strings.Repeat("header.payload.", 300)
+							s.PreferredUsername = strings.Repeat("ü", 1200)
+							s.Groups = nil
+							for k := 0; k < 600; k++ {
+								s.Groups = append(s.Groups, "same-group")
+							}
+						}
 						n, maxLen, err := w.saveVia(jar, s)
 						if err != nil {
 							obs["error"] = err.Error()
